@@ -322,6 +322,12 @@ func (c *Ctx) classifyBound(info *types.Info, fd *ast.FuncDecl, e ast.Expr, dept
 						if isSliceOfPtrTo(v.Type(), "banderwagon", "Element") {
 							return "opening"
 						}
+						// a parameter whose length a leading guard pins to the commitments' length
+						for _, other := range lenEqualParams(info, fd, v, a.Pos()) {
+							if isSliceOfPtrTo(other.Type(), "banderwagon", "Element") {
+								return "opening"
+							}
+						}
 						return "other:len(" + a.Name + ")"
 					}
 					// local variable: follow single definition
@@ -352,6 +358,92 @@ func (c *Ctx) classifyBound(info *types.Info, fd *ast.FuncDecl, e ast.Expr, dept
 		}
 	}
 	return "other"
+}
+
+// lenEqualParams: parameters q for which a top-level guard `if len(p) != len(q) [|| ...] { return ... }` of fd
+// makes len(p) == len(q) hold in the rest of the function.
+func lenEqualParams(info *types.Info, fd *ast.FuncDecl, p *types.Var, at token.Pos) []*types.Var {
+	var out []*types.Var
+	lenArg := func(e ast.Expr) *types.Var {
+		call, ok := ast.Unparen(e).(*ast.CallExpr)
+		if !ok || len(call.Args) != 1 {
+			return nil
+		}
+		if id, ok := call.Fun.(*ast.Ident); !ok || id.Name != "len" || info.Uses[id] != types.Universe.Lookup("len") {
+			return nil
+		}
+		id, ok := ast.Unparen(call.Args[0]).(*ast.Ident)
+		if !ok {
+			return nil
+		}
+		v, _ := info.Uses[id].(*types.Var)
+		if v == nil || !isParamOf(info, fd, v) {
+			return nil
+		}
+		return v
+	}
+	var terms func(e ast.Expr)
+	terms = func(e ast.Expr) {
+		be, ok := ast.Unparen(e).(*ast.BinaryExpr)
+		if !ok {
+			return
+		}
+		if be.Op == token.LOR {
+			terms(be.X)
+			terms(be.Y)
+			return
+		}
+		if be.Op != token.NEQ {
+			return
+		}
+		a, b := lenArg(be.X), lenArg(be.Y)
+		if a == nil || b == nil {
+			return
+		}
+		if a == p {
+			out = append(out, b)
+		} else if b == p {
+			out = append(out, a)
+		}
+	}
+	for _, st := range fd.Body.List {
+		// top-level guards that end before the use: once passed, the equality holds (no reassignment, checked below)
+		is, ok := st.(*ast.IfStmt)
+		if !ok || is.End() >= at {
+			continue
+		}
+		if is.Init != nil || is.Else != nil || len(is.Body.List) == 0 {
+			continue
+		}
+		if _, isRet := is.Body.List[len(is.Body.List)-1].(*ast.ReturnStmt); !isRet {
+			continue
+		}
+		terms(is.Cond)
+	}
+	// the equality only lasts if neither side is ever reassigned
+	reassigned := map[*types.Var]bool{}
+	ast.Inspect(fd.Body, func(n ast.Node) bool {
+		if as, ok := n.(*ast.AssignStmt); ok {
+			for _, l := range as.Lhs {
+				if id, ok := ast.Unparen(l).(*ast.Ident); ok {
+					if v, _ := info.Uses[id].(*types.Var); v != nil {
+						reassigned[v] = true
+					}
+				}
+			}
+		}
+		return true
+	})
+	if reassigned[p] {
+		return nil
+	}
+	kept := out[:0]
+	for _, q := range out {
+		if !reassigned[q] {
+			kept = append(kept, q)
+		}
+	}
+	return kept
 }
 
 func namedIs(t types.Type, pkgRel, name string) bool {
